@@ -199,6 +199,12 @@ class Program(object):
         # type: () -> str
         """ Returns a string with commands formatted in the MPilot command file syntax. """
 
+        def escape(text):
+            # type: (Any) -> str
+            """ Escapes backslashes and double quotes so the parser reads the quoted string back unchanged """
+
+            return six.text_type(text).replace("\\", "\\\\").replace('"', '\\"')
+
         def serialize_value(value, argument, command):
             # type: (Any, Argument, Command) -> str
 
@@ -210,7 +216,7 @@ class Program(object):
             ):
                 return str(value)
             if isinstance(value, six.string_types):
-                return '"{}"'.format(value)
+                return '"{}"'.format(escape(value))
             else:
                 return str(value)
 
@@ -226,7 +232,7 @@ class Program(object):
             elif isinstance(argument.value, dict):
                 return "[\n{}\n    ]".format(
                     ",\n".join(
-                        '        "{}": "{}"'.format(key, value)
+                        '        "{}": "{}"'.format(escape(key), escape(value))
                         for key, value in argument.value.items()
                     )
                 )
